@@ -44,6 +44,28 @@ CHECKS.update({
                      "without sorted every order compiles."),
 })
 
+CHECKS.update({
+    "C17": dict(engine="E1 xpand (seam build)", design="§5 C17, §6", note="Trusted base: the seam map in /repo/src/verif_seam.rs (insertion-ordered, "
+                "iteration order chosen by the explorer) replaces std HashMap in the three parser modules under --cfg enum_tools_verif; sources of "
+                "per-process state outside the seam are only caught by the textual audit and by the supplementary fresh-process replication (sampling).",
+                technique="exhaustive exploration of all iteration orders (n! per map iteration) of every hash map of the real parser via a controlled scheduler, prefix-replay DFS; replayed schedules asserted deterministic",
+                text="For every declaration of the family (all n! declaration orders for n<=3/4, all subsets of a 6-window up to n=5/6, a 7-variant enum in "
+                     "thorough; full feature sets in table/match modes, split attributes, name/vis parameters) every assignment of iteration orders to the "
+                     "parser's map iterations is executed on the real parser+generator; exactly one distinct expansion text is required."),
+    "C18": dict(engine="E3 subjects+driver", design="§5 C18", note=E3_NOTE,
+                technique="exhaustive enumeration of all n! declaration orders x all admissible reprs per value set; per-item transcript hashes compared within each value set and against the reference model",
+                text="Every value set of size <=3 (quick) / <=4 from a 6-window, all declaration orders, every repr that can hold it, full feature set in "
+                     "table and match modes; names are attached to values. All subjects of a value set must produce identical transcripts."),
+})
+
+HOOKS = {
+    "guard": "enum_tools_verif",
+    "enable": "RUSTFLAGS=\"--cfg enum_tools_verif\" when lib/e1.py builds engines/xpand for C17 (target/xpand-seam); every other engine builds /repo with the guard off",
+    "baseline_off_cmd": "cd /repo && cargo test --workspace --no-fail-fast --offline",
+    "source_commits": ["6400e03"],
+    "add_only": True,
+}
+
 ENGINES = [
     {"name": "E1 xpand", "path": "engines/xpand, engines/vendor/proc-macro-error, lib/e1.py",
      "serves_properties": ["C09", "C10", "C15", "C17", "C19"],
